@@ -111,6 +111,10 @@ impl Texture {
 
         match header.format {
             TextureFormat::B4G4R4A4 => {
+                if src.len() < header.width as usize * header.height as usize * 2 {
+                    return None;
+                }
+
                 dst =
                     vec![
                         0u8;
@@ -138,6 +142,12 @@ impl Texture {
                 }
             }
             TextureFormat::B8G8R8A8 => {
+                if src.len()
+                    < header.width as usize * header.height as usize * header.depth as usize * 4
+                {
+                    return None;
+                }
+
                 dst =
                     vec![
                         0u8;
